@@ -5,6 +5,7 @@ import (
 	"math"
 	"math/rand"
 	"reflect"
+	"sort"
 	"strings"
 	"sync"
 	"time"
@@ -253,6 +254,7 @@ func runBridge(c *sx.Node) (out *sx.Node) {
 		return sx.Tag("HARNESS-PANIC", sx.Str(err.Error()))
 	}
 	var got []*sx.Node
+	var allGot []string // what every invocation of the probe received, in order of arrival
 	var mu sync.Mutex
 	var fn any
 	switch reg.TagName() {
@@ -280,6 +282,7 @@ func runBridge(c *sx.Node) (out *sx.Node) {
 		} else {
 			fn = reflect.MakeFunc(ft, func(args []reflect.Value) []reflect.Value {
 				mu.Lock()
+				defer func() { allGot = append(allGot, sx.List(got...).String()); mu.Unlock() }()
 				got = []*sx.Node{}
 				for i, a := range args {
 					if variadic && i == len(args)-1 {
@@ -290,7 +293,6 @@ func runBridge(c *sx.Node) (out *sx.Node) {
 						got = append(got, encGoValue(a))
 					}
 				}
-				mu.Unlock()
 				res := []reflect.Value{}
 				for _, t := range outT {
 					res = append(res, cannedResult(t, errNil, chanNil))
@@ -359,6 +361,61 @@ func runBridge(c *sx.Node) (out *sx.Node) {
 			results = append(results, sx.List(res))
 		} else {
 			results = append(results, sx.List(res, sx.Tag("got", g...)))
+		}
+	}
+	// Overlapping invocations of one converted command (its handler runs on a goroutine of the
+	// bridge): two calls issued back to back must deliver to the handler exactly what the same two
+	// calls delivered one after the other.
+	if which == "cmd" && reg.TagName() == "func" {
+		seq := []string{}
+		for _, r := range results {
+			g := ""
+			if len(r.L) == 2 {
+				g = sx.List(r.L[1].L[1:]...).String()
+			}
+			if len(r.L) >= 1 && r.L[0].TagName() == "panic" {
+				g = "PANIC"
+			}
+			seq = append(seq, g)
+		}
+		for i := 0; i+1 < len(seq); i++ {
+			if seq[i] == "PANIC" || seq[i+1] == "PANIC" || seq[i] == seq[i+1] {
+				continue
+			}
+			mu.Lock()
+			allGot = nil
+			mu.Unlock()
+			a1, a2 := []*variable.Value{}, []*variable.Value{}
+			for _, a := range c.L[5].L[i].L {
+				a1 = append(a1, decValue(a))
+			}
+			for _, a := range c.L[5].L[i+1].L {
+				a2 = append(a2, decValue(a))
+			}
+			ch1 := dr.VerifCallCommand("f", a1)
+			ch2 := dr.VerifCallCommand("f", a2)
+			for _, ch := range []<-chan error{ch1, ch2} {
+				select {
+				case <-ch:
+				case <-time.After(2 * time.Second):
+				}
+			}
+			time.Sleep(200 * time.Microsecond)
+			mu.Lock()
+			seen := append([]string{}, allGot...)
+			mu.Unlock()
+			want := []string{}
+			for _, g := range []string{seq[i], seq[i+1]} {
+				if g != "" {
+					want = append(want, g)
+				}
+			}
+			sort.Strings(seen)
+			sort.Strings(want)
+			if strings.Join(seen, "|") != strings.Join(want, "|") {
+				results = append(results, sx.List(sx.Tag("overlap-mismatch", sx.Int(int64(i)), sx.Str(strings.Join(want, "|")), sx.Str(strings.Join(seen, "|")))))
+				break
+			}
 		}
 	}
 	return sx.Tag("reg", sx.Str("ok"), sx.List(results...))
